@@ -9,6 +9,7 @@ package main
 import (
 	"context"
 	"crypto/sha256"
+	"encoding/binary"
 	"encoding/json"
 	"fmt"
 	"math/big"
@@ -90,6 +91,7 @@ func imageStore(base map[string][]byte, evs []storeEv) *recStore {
 
 type state struct {
 	cfg         *headers.Config
+	unknown     map[bitcoin.Hash32]int // hashes made up for ids that no header has
 	store       *recStore
 	repo        *headers.Repository
 	subs        []<-chan *wire.BlockHeader
@@ -167,7 +169,40 @@ func (s *state) hashOf(id int) bitcoin.Hash32 {
 	if id == s.genesisID {
 		return s.genesisHash
 	}
-	return unknownHash(id)
+	h := unknownHash(id)
+	if s.ids != nil {
+		if _, known := s.ids[h]; !known {
+			s.unknown[h] = id
+		}
+	}
+	return h
+}
+
+// storedInvalid is the invalid-hash list as it is in storage right now ("headers/invalid").
+func (s *state) storedInvalid() string {
+	data, ok := s.store.mirror["headers/invalid"]
+	if !ok {
+		return "inv=none"
+	}
+	if len(data) < 4 {
+		return "inv=short"
+	}
+	n := int(binary.LittleEndian.Uint32(data[:4]))
+	if len(data) != 4+32*n {
+		return "inv=malformed"
+	}
+	ids := make([]string, n)
+	for i := 0; i < n; i++ {
+		var h bitcoin.Hash32
+		copy(h[:], data[4+32*i:4+32*i+32])
+		ids[i] = s.idOf(h)
+		if ids[i] == "?" {
+			if id, ok := s.unknown[h]; ok {
+				ids[i] = strconv.Itoa(id)
+			}
+		}
+	}
+	return "inv=[" + strings.Join(ids, ",") + "]"
 }
 
 func (s *state) idOf(h bitcoin.Hash32) string {
@@ -456,6 +491,7 @@ func (s *state) step(line string) string {
 		s.store = newRecStore()
 		s.hdrs = map[int]*wire.BlockHeader{}
 		s.ids = map[bitcoin.Hash32]int{}
+		s.unknown = map[bitcoin.Hash32]int{}
 		s.order = nil
 		s.specials = map[int]bitcoin.Hash32{}
 		if s.cfg.Network == bitcoin.MainNet {
@@ -581,6 +617,9 @@ func (s *state) step(line string) string {
 			return op + " => r=panic #" + strings.ReplaceAll(ptxt, " ", "_")
 		}
 		res := op + " => " + out + " " + s.tip()
+		if verb == "mark" || verb == "unmark" {
+			res += " " + s.storedInvalid()
+		}
 		if ev := s.drain(); ev != "ev=[]" {
 			res += " " + ev
 		}
